@@ -11,3 +11,5 @@
 #define SOLVES(a,b,c,d,e,f) (g_s1[0] == a && g_s1[1] == b && g_s1[2] == c && g_s2[0] == d && g_s2[1] == e && g_s2[2] == f)
 /* round g_r has been completed and asked for a product: its two solves match the direction asked for */
 #define ROUND_OK (g_rk == KASE1 ? SOLVES('L','N','U','U','N','N') : SOLVES('U','T','N','L','T','U'))
+/* the value the routine documents: RCOND = (1/norm(inv(A)))/norm(A), rounded to the working precision */
+#define RC_E ((@R@)((1. / g_est) / anorm))
